@@ -96,6 +96,7 @@ func Load(dir string, overlay map[string][]byte, patterns []string) (*Program, e
 	addSSZModel(P)
 	addGobModel(P)
 	addStringModels(P)
+	addSymStrings(P)
 	return P, nil
 }
 
